@@ -47,7 +47,7 @@ Fixpoint nth_nat {A} (l : list A) (n : nat) : option A :=
   | _ :: r, S m => nth_nat r m
   end.
 Definition nthZ {A} (l : list A) (i : Z) : option A :=
-  if i <? 0 then None else nth_nat l (Z.to_nat i).
+  if (i <? 0) || (Z.of_nat (length l) <=? i) then None else nth_nat l (Z.to_nat i).
 
 (* a register file: the Go slice regs.int / regs.string / regs.general.  Its
    length is the stack top st; entries never written hold the zero value. *)
